@@ -178,13 +178,16 @@ structure St where
   now : Int
   calls : List Call
   waiters : List Waiter
+  /-- picks stopped between the pool-size check and `newSubConn` (call, picker used); each holds its
+      picker's mutex -/
+  held : List (Nat × Nat) := []
   deriving Repr, Inhabited
 
 def init (ci : CfgInput) : St :=
   { cfgIn := ci, cfg := none, addrs := 0, nReady := 0, nConn := 0, nTF := 0, aggr := .idle,
     affinity := [], fallback := [], scStates := [], scRefs := [], refs := [], rr := 2^32 - 1,
     refreshingMap := [], picker := .errNoSc, nextSc := 0, failN := 0, scAddrs := [], removed := [],
-    published := [], now := 0, calls := [], waiters := [] }
+    published := [], now := 0, calls := [], waiters := [], held := [] }
 
 inductive Event where
   | newSc (sc : Sc) (a : Nat)
@@ -207,6 +210,10 @@ inductive Op where
   | pick (call : Nat) (picker : Nat) (m : String) (ctx : CtxKind) (dl : Option Int) (req : Req)
   | ctxdone (call : Nat)
   | done (call : Nat) (err : ErrKind) (reply : Msg)
+  /-- a pick that the scheduler stops right before `newSubConn` if it gets there (otherwise an ordinary pick) -/
+  | pickHold (call : Nat) (picker : Nat) (m : String) (ctx : CtxKind) (dl : Option Int) (req : Req)
+  /-- … and lets continue later -/
+  | resume (call : Nat)
   deriving Repr, Inhabited
 
 /-! ### helpers on slots -/
@@ -457,7 +464,10 @@ def place (s : St) (call : Nat) (slot : Slot) (cmd : Cmd) (loc : Loc) (key : Str
                                       ctx := ctx, dl := dl, started := s.now }] }, some r.subConn)
 
 def callIdUsed (s : St) (call : Nat) : Bool :=
-  s.calls.any (fun c => c.id == call) || s.waiters.any (fun w => w.id == call)
+  s.calls.any (fun c => c.id == call) || s.waiters.any (fun w => w.id == call) || s.held.any (fun h => h.1 == call)
+
+/-- a stopped pick holds the picker's mutex: no other pick on that picker can run -/
+def pickerBusy (s : St) (pn : Nat) : Bool := s.held.any (fun h => h.2 == pn)
 
 /-- method table lookup + affinity key of a BOUND / UNBIND call: (cmd, locator, key or error) -/
 def resolveCall (c : Cfg) (m : String) (ctx : CtxKind) (req : Req) : Cmd × Loc × Option String :=
@@ -502,7 +512,7 @@ def pickRR (s : St) (call : Nat) (loc : Loc) (ctx : CtxKind) (dl : Option Int) :
 
 def opPick (s : St) (call pn : Nat) (m : String) (ctx : CtxKind) (dl : Option Int) (req : Req) :
     St × List Event :=
-  if callIdUsed s call then (s, [.res "bad-op"])       -- the harness numbers calls uniquely
+  if callIdUsed s call || pickerBusy s pn then (s, [.res "bad-op"])   -- unique call ids; picker mutex free
   else
   match s.published[pn]? with
   | none => (s, [.res "bad-op"])
@@ -630,6 +640,43 @@ def opCtxDone (s : St) (callId : Nat) : St × List Event :=
     | (s, some sc) => (s, [.placed sc])
     | (s, none) => (s, [.res "PANIC"])
 
+/-! ### a pick stopped between the size check and `newSubConn` -/
+
+/-- the pick reaches `p.gb.newSubConn()`: least-loaded path, every READY channel of the picker at the
+    watermark, pool below maxSize (nothing has been written up to that point) -/
+def wouldGrow (s : St) (pn : Nat) (m : String) (ctx : CtxKind) (req : Req) : Bool :=
+  match s.published[pn]?, s.cfg with
+  | some (_, .gcp l), some c =>
+    !l.isEmpty &&
+    (match resolveCall c m ctx req with
+     | (cmd, _, some key) =>
+       !(cmd == .bind && c.rr) && (key == "" || (lookup s.affinity key).isNone) &&
+       (match leastBusy s l with
+        | some mn => !(streamsOf s mn < c.wm) && (c.max == 0 || s.scRefs.length < c.max)
+        | none => false)
+     | _ => false)
+  | _, _ => false
+
+def opPickHold (s : St) (call pn : Nat) (m : String) (ctx : CtxKind) (dl : Option Int) (req : Req) :
+    St × List Event :=
+  if callIdUsed s call || pickerBusy s pn then (s, [.res "bad-op"])
+  else if wouldGrow s pn m ctx req then ({ s with held := s.held ++ [(call, pn)] }, [.res "held"])
+  else opPick s call pn m ctx dl req
+
+/-- newSubConn as the stopped pick finally runs it: the pool size is looked at again under the lock -/
+def resumeCore (s : St) : St × List Event :=
+  match s.cfg with
+  | none => (s, [.res "nosc"])                          -- unreachable: a stopped pick implies a config
+  | some c =>
+    if c.max == 0 || s.scRefs.length < c.max then
+      ((newSubConn s).1, (newSubConn s).2 ++ [.res "nosc"])
+    else (s, [.res "nosc"])
+
+def opResume (s : St) (call : Nat) : St × List Event :=
+  match s.held.find? (fun h => h.1 == call) with
+  | none => (s, [.res "bad-op"])
+  | some _ => resumeCore { s with held := s.held.filter fun h => h.1 != call }
+
 /-! ### one step -/
 
 def stepCore (s : St) : Op → St × List Event
@@ -641,6 +688,8 @@ def stepCore (s : St) : Op → St × List Event
   | .pick call pn m ctx dl req => opPick s call pn m ctx dl req
   | .ctxdone call => opCtxDone s call
   | .done call err reply => opDone s call err reply
+  | .pickHold call pn m ctx dl req => opPickHold s call pn m ctx dl req
+  | .resume call => opResume s call
 
 def step (s : St) (op : Op) : St × List Event :=
   let (s, ev) := stepCore s op
